@@ -163,6 +163,51 @@ pub fn golden_histories() -> Vec<(String, History)> {
             },
         ));
     }
+    // H4 (DbString only): keys that are not text -- DbString wraps arbitrary bytes (From<&[u8]>):
+    // invalid UTF-8, multi-byte text, embedded NULs, the empty key; 8 buckets so that such keys sit
+    // inside chains; overwrites that move values, deletes of chain neighbours
+    {
+        let mut keys: Vec<Key> = Vec::new();
+        for i in 0..14u32 {
+            keys.push(Key::P { len: 2 + i % 9, seed: 900 + i });
+        }
+        keys.push(Key::B(vec![0x61, 0xC3]));
+        keys.push(Key::B(vec![0xFF, 0xFE, 0x6B, 0x80]));
+        keys.push(Key::B("grüße-語-𝄞".as_bytes().to_vec()));
+        keys.push(Key::B(b"nul\0inside".to_vec()));
+        keys.push(Key::B(vec![]));
+        for i in 0..8u32 {
+            keys.push(Key::S { len: 3 + i, seed: 950 + i });
+        }
+        let keys = dedup_keys(keys);
+        let nk = keys.len() as u32;
+        let mut ops = Vec::new();
+        for i in 0..nk {
+            ops.push(Op::Put { k: i, v: Val::P { len: [4u32, 14, 15, 30, 100][i as usize % 5], seed: 600 + i } });
+        }
+        for i in (0..nk).step_by(4) {
+            ops.push(Op::Put { k: i, v: Val::P { len: 200 + i, seed: 700 + i } });
+        }
+        for i in (1..nk).step_by(5) {
+            ops.push(Op::Del { k: i });
+        }
+        out.push((
+            "string-rawkeys-t8".to_string(),
+            History {
+                maps: vec![MapSpec {
+                    name: "m".into(),
+                    kt: Kt::String,
+                    params: Params::plain(Buckets::Capacity(4)),
+                    keys,
+                    late: false,
+                }],
+                ops,
+                obs: Obs::default(),
+                excluded: 0,
+                quiet_prefix: 0,
+            },
+        ));
+    }
     out
 }
 
@@ -498,7 +543,7 @@ impl Prop for C12 {
         "C12"
     }
     fn rule(&self) -> String {
-        "15 golden images (5 key types x {inserts only / deletes+overwrites+re-inserts with non-empty free lists / large slots with a free large slot}; tables of 8, 128 and 1024 buckets) written by a build of the PINNED commit and committed with their expected contents and key placement. Per image: (1) the independent decoder (own placement hash, own vu64) recovers exactly expected.json incl. each key's bucket; (2) the current build opens it (with other parameters than at creation): len, every key, deleted keys, full iteration, statistics; (3) files byte-identical after that read-only use; (5) the current build re-executes the image's history and the fresh image is decoded by the documented layout: same contents, same placement, clean structure and tiling (free-list heads at their documented offsets); byte identity with the golden files is reported as a label, not demanded; (4) 300 (thorough: 3000) seeded random continuation histories per image (updates, flush/sync, iteration, batches, clean reopen) against the model seeded from expected.json with decode + tiling checks at every sync and close. evaluations = static image checks + continuations. Non-trivial: a continuation that overwrites or deletes a golden-era record; distinct by case digest."
+        "16 golden images (5 key types x {inserts only / deletes+overwrites+re-inserts with non-empty free lists / large slots with a free large slot}; tables of 8, 128 and 1024 buckets; plus a DbString map whose keys are not text: invalid UTF-8, multi-byte characters, NULs, the empty key, sitting inside chains) written by a build of the PINNED commit and committed with their expected contents and key placement. Per image: (1) the independent decoder (own placement hash, own vu64) recovers exactly expected.json incl. each key's bucket; (2) the current build opens it (with other parameters than at creation): len, every key, deleted keys, full iteration, statistics; (3) files byte-identical after that read-only use; (5) the current build re-executes the image's history and the fresh image is decoded by the documented layout: same contents, same placement, clean structure and tiling (free-list heads at their documented offsets); byte identity with the golden files is reported as a label, not demanded; (4) 300 (thorough: 3000) seeded random continuation histories per image (updates, flush/sync, iteration, batches, clean reopen) against the model seeded from expected.json with decode + tiling checks at every sync and close. evaluations = static image checks + continuations. Non-trivial: a continuation that overwrites or deletes a golden-era record; distinct by case digest."
             .to_string()
     }
     fn assumptions(&self) -> Vec<String> {
